@@ -54,9 +54,13 @@ pub fn send_raw(addr: &str, prep: &Prepared) -> std::thread::Result<RawResult> {
         let mut write_all = || -> std::io::Result<()> {
             s.write_all(&head)?;
             if chunked {
-                for c in &prep.chunks {
+                for (ci, c) in prep.chunks.iter().enumerate() {
                     if c.is_empty() {
                         continue;
+                    }
+                    if prep.pause_ms > 0 && ci + 1 == prep.chunks.len() {
+                        s.flush()?;
+                        std::thread::sleep(Duration::from_millis(prep.pause_ms));
                     }
                     s.write_all(format!("{:x}\r\n", c.len()).as_bytes())?;
                     s.write_all(c)?;
